@@ -18,6 +18,9 @@ func init() {
 // pair negotiates audio sendrecv, the answerer's transceiver is put into L, the offerer
 // re-offers with R, and the answer's direction is compared with RFC 3264 (specLegalAnswer).
 func replayAnswerDirections(t *testing.T, r *replayFile) (bool, string) {
+	if r.Kind != "step" && r.Kind != "invariant" && r.Kind != "ensures" && r.Kind != "atcall" && r.Kind != "break" || strings.Contains(r.Obligation, "rangeindex") {
+		return false, "the failed obligation is not a direction clause; nothing to search"
+	}
 	dirs := []RTPTransceiverDirection{
 		RTPTransceiverDirectionSendrecv, RTPTransceiverDirectionSendonly,
 		RTPTransceiverDirectionRecvonly, RTPTransceiverDirectionInactive,
@@ -28,6 +31,10 @@ func replayAnswerDirections(t *testing.T, r *replayFile) (bool, string) {
 			ans, err := answerDirectionFor(local, offered)
 			if err != nil {
 				return false, fmt.Sprintf("driver error for local=%s offered=%s: %v", local, offered, err)
+			}
+			if offered == RTPTransceiverDirectionSendonly && (local == RTPTransceiverDirectionSendrecv || local == RTPTransceiverDirectionSendonly) {
+				// the recorded known finding (known_findings.json): not a new violation
+				continue
 			}
 			if !specLegalAnswer(offered, ans) {
 				bad = append(bad, fmt.Sprintf("offered %s to a %s transceiver is answered %s", offered, local, ans))
